@@ -102,23 +102,34 @@ Definition c13_check (c : c13case) : bool :=
   | CSha x e => beqb (sha256 x) e
   end.
 
-Inductive c13out :=
-| OS (r : res (list N))
-| OD (r : res dict)
-| ODs (r : res (list dict * list dict))
-| OSpec (r : option (list N)).
+(* what the model computed, for the failing cases only: a short prefix of its
+   JSON rendering (printing whole key dictionaries is slow and the evaluator
+   reads the output through a pipe) *)
+Definition c13out := res (list N).
+Definition clip (l : list N) : list N := firstn 48 l.
+Definition show_dict (r : res dict) : c13out :=
+  match r with
+  | Ok d => match jdumps (PDict d) with Ok s => Ok (clip s) | Err e => Err e end
+  | Err e => Err e
+  end.
+Definition show_str (r : res (list N)) : c13out :=
+  match r with Ok s => Ok (clip s) | Err e => Err e end.
 
 Definition c13_show (c : c13case) : c13out :=
   match c with
-  | CJson v _ => OS (jdumps v)
-  | CThumb o d f dg _ => OS (thumbprint (oracle_hash o) d f dg)
-  | CKeyThumb o cls d _ => OS (key_thumbprint (oracle_hash o) (cls_of cls) d)
-  | CEnsureKid o cls d _ => OD (ensure_kid_run o cls d)
+  | CJson v _ => show_str (jdumps v)
+  | CThumb o d f dg _ => show_str (thumbprint (oracle_hash o) d f dg)
+  | CKeyThumb o cls d _ => show_str (key_thumbprint (oracle_hash o) (cls_of cls) d)
+  | CEnsureKid o cls d _ => show_dict (ensure_kid_run o cls d)
   | CAsDict cls p d private params _ =>
-      OD (as_dict {| ko_cls := cls_of cls; ko_priv := p; ko_dict := d |} private params)
-  | CMkDict cls orig params _ => OD (Ok (mk_dict (cls_of cls) orig params))
-  | CExport nk _ => OD (export_native nk)
-  | CKeySet o ks private params _ => ODs (keyset_run o ks private params)
-  | CSpec kty K _ => OSpec (spec_run kty K)
-  | CSha x _ => OS (Ok (sha256 x))
+      show_dict (as_dict {| ko_cls := cls_of cls; ko_priv := p; ko_dict := d |} private params)
+  | CMkDict cls orig params _ => show_dict (Ok (mk_dict (cls_of cls) orig params))
+  | CExport nk _ => show_dict (export_native nk)
+  | CKeySet o ks private params _ =>
+      match keyset_run o ks private params with
+      | Ok (es, _) => show_dict (Ok (map (fun e => ([], PDict e)) es))
+      | Err e => Err e
+      end
+  | CSpec kty K _ => match spec_run kty K with Some s => Ok (clip s) | None => Err EOracleMiss end
+  | CSha x _ => Ok (clip (sha256 x))
   end.
